@@ -60,6 +60,7 @@ type Target struct {
 	MS  map[string]string `mapstructure:"ms"`
 	L   []any             `mapstructure:"l"`
 	LS  []string          `mapstructure:"ls"`
+	MLS map[string][]string `mapstructure:"mls"`
 	Sub Sub               `mapstructure:"sub"`
 }
 
@@ -74,7 +75,7 @@ type Full struct {
 
 // fieldKind: str int bool float mapany mapstr listany liststr sub
 var fieldKind = map[string]string{"s1": "str", "s2": "str", "s3": "str", "i": "int", "b": "bool", "f": "float",
-	"m": "mapany", "ms": "mapstr", "l": "listany", "ls": "liststr", "sub": "sub"}
+	"m": "mapany", "ms": "mapstr", "l": "listany", "ls": "liststr", "mls": "mapliststr", "sub": "sub"}
 
 var allSchemes = []string{"aa", "b2", "x.y-z+1", defaultScheme}
 
@@ -174,7 +175,7 @@ type expect struct {
 	name  string
 	kind  string
 	typed any
-	str   any
+	str   *snode
 	res   Res
 }
 
@@ -309,6 +310,19 @@ func fieldOf(tv reflect.Value, name string) any {
 				l = append(l, v)
 			}
 			return l
+		case map[string][]string:
+			if x == nil {
+				return nil
+			}
+			m := map[string]any{}
+			for k, vs := range x {
+				l := []any{}
+				for _, v := range vs {
+					l = append(l, v)
+				}
+				m[k] = l
+			}
+			return m
 		case Sub:
 			var l any
 			if x.L != nil {
